@@ -3,7 +3,7 @@ import BSModel.Model.Search
 /-! Line protocol for C10 (see harness/c10.py for the encoder).
 
 `find <variant> <tree> <start> <family> <form> <limit> <name> <attrs> <string> <kwargs> <re> <ft> <fs>`
-* variant: `r` (repaired) | `u` (unrepaired /repo behaviour)
+* variant: `r` (/repo HEAD) | `p` (HEAD + fixes/proposed) | `u` (4.13.0 as shipped)
 * tree: pre-order, `;`-separated: `T:<id>:<name>:<pfx|~>:<k=val&…|->:<nkids>` / `S:<id>:<text>:<cls>`,
   val = `s.<cps>` | `l.<cps>+<cps>…`
 * family: desc child next prev nsib psib par
@@ -116,7 +116,7 @@ def handle : List String → String
   | ["find", var, tree, start, fam, form, limit, name, attrs, string, kw, re, ft, fs] =>
     match parseTree tree, parseFam fam with
     | some root, some f =>
-      let v := if var == "u" then Variant.unrepaired else Variant.repaired
+      let v := if var == "u" then Variant.unrepaired else if var == "p" then Variant.proposed else Variant.repaired
       let O := parseOracle re ft fs
       let q : Query := { name := parseCrit name, attrs := parseAttrsArg attrs, string := parseCrit string,
                          kwargs := parsePairs kw }
